@@ -1275,6 +1275,7 @@ Block* Bin::getPrivatizedFreeListBlock()
     if (!mailbox.load(std::memory_order_acquire)) // hotpath is empty mailbox
         return nullptr;
     else { // mailbox is not empty, take lock and inspect it
+        __TBB_VERIF_POINT(vp_tm_bin_mailbox, this, 1);
         MallocMutex::scoped_lock scoped_cs(mailLock);
         block = mailbox.load(std::memory_order_relaxed);
         if( block ) {
@@ -1294,6 +1295,7 @@ Block* Bin::getPrivatizedFreeListBlock()
 
 void Bin::addPublicFreeListBlock(Block* block)
 {
+    __TBB_VERIF_POINT(vp_tm_bin_mailbox, block, 0);
     MallocMutex::scoped_lock scoped_cs(mailLock);
     block->nextPrivatizable.store(mailbox.load(std::memory_order_relaxed), std::memory_order_relaxed);
     mailbox.store(block, std::memory_order_relaxed);
@@ -1418,6 +1420,7 @@ void Block::freePublicObject (FreeObject *objectToFree)
     }
 #endif
 
+    __TBB_VERIF_POINT(vp_tm_public_free_push, this, localPublicFreeList == nullptr ? 1 : 0);
     if( localPublicFreeList==nullptr ) {
         // if the block is abandoned, its nextPrivatizable pointer should be UNUSABLE
         // otherwise, it should point to the bin the block belongs to.
@@ -1468,6 +1471,7 @@ void Block::privatizePublicFreeList( bool reset )
     }
 #endif
     MALLOC_ITT_SYNC_ACQUIRED(&publicFreeList);
+    __TBB_VERIF_POINT(vp_tm_privatize, this, 0);
     MALLOC_ASSERT( !(reset && isNotForUse(publicFreeList)), ASSERT_TEXT );
 
     // publicFreeList must have been UNUSABLE or valid, but not nullptr
@@ -1535,6 +1539,7 @@ void Block::shareOrphaned(intptr_t binTag, unsigned index)
     tbb::detail::suppress_unused_warning(index);
     STAT_increment(getThreadId(), index, freeBlockPublic);
     markOrphaned();
+    __TBB_VERIF_POINT(vp_tm_orphan_put, this, 0);
     if ((intptr_t)nextPrivatizable.load(std::memory_order_relaxed) == binTag) {
         // First check passed: the block is not in mailbox yet.
         // Need to set publicFreeList to non-zero, so other threads
@@ -1600,6 +1605,7 @@ Block *OrphanedBlocks::get(TLSData *tls, unsigned int size)
     // TODO: try to use index from getAllocationBin
     unsigned int index = getIndex(size);
     Block *block = bins[index].pop();
+    __TBB_VERIF_POINT(vp_tm_orphan_get, block, block ? 1 : 0);
     if (block) {
         MALLOC_ITT_SYNC_ACQUIRED(bins+index);
         block->privatizeOrphaned(tls, index);
@@ -1612,6 +1618,7 @@ void OrphanedBlocks::put(intptr_t binTag, Block *block)
     unsigned int index = getIndex(block->getSize());
     block->shareOrphaned(binTag, index);
     MALLOC_ITT_SYNC_RELEASING(bins+index);
+    __TBB_VERIF_POINT(vp_tm_orphan_put, block, 1);
     bins[index].push(block);
 }
 
@@ -1650,6 +1657,7 @@ bool OrphanedBlocks::cleanup(Backend* backend)
 FreeBlockPool::ResOfGet FreeBlockPool::getBlock()
 {
     Block *b = head.exchange(nullptr);
+    __TBB_VERIF_POINT(vp_tm_loc_get, this, 1);
     bool lastAccessMiss;
 
     if (b) {
@@ -1667,6 +1675,7 @@ void FreeBlockPool::returnBlock(Block *block)
 {
     MALLOC_ASSERT( size <= POOL_HIGH_MARK, ASSERT_TEXT );
     Block *localHead = head.exchange(nullptr);
+    __TBB_VERIF_POINT(vp_tm_loc_put, this, 1);
 
     if (!localHead) {
         size = 0; // head was stolen by externalClean, correct size accordingly
@@ -2202,6 +2211,7 @@ bool LocalLOCImpl<LOW_MARK, HIGH_MARK>::put(LargeMemoryBlock *object, ExtMemoryP
     if (size > MAX_TOTAL_SIZE)
         return false;
     LargeMemoryBlock *localHead = head.exchange(nullptr);
+    __TBB_VERIF_POINT(vp_tm_loc_put, this, 2);
 
     object->prev = nullptr;
     object->next = localHead;
